@@ -6,6 +6,7 @@ import Genq.Model.Names
 import Genq.Model.Main
 import Genq.Model.Ws
 import Genq.Model.Doc
+import Genq.Model.Files
 open Lean
 namespace Genq.Driver
 
@@ -248,6 +249,25 @@ def opDoc (op : String) (j : Json) : Except String Json := do
     return Json.mkObj [("out", Doc.onlyTypenameAddedList (← parseSelList j "src") (← parseSelList j "emitted"))]
   | _ => throw s!"unknown op {op}"
 
+def opFiles (op : String) (j : Json) : Except String Json := do
+  match op with
+  | "files.posString" =>
+    return Json.mkObj [("out", str (Files.posString (← getStr j "filename").toList (← getNat j "line")))]
+  | "files.selected" =>
+    return Json.mkObj [("out", Files.selected (← getStr j "value").toList)]
+  | "files.merged" =>
+    -- files: [{kind: "graphql"|"go"|"other", defs: [names], lits: [{value, defs:[names]}]}]
+    let files ← (← getArr j "files").toList.mapM fun f => do
+      let kind ← match (← getStr f "kind") with
+        | "graphql" => pure Files.FileKind.graphql | "go" => pure Files.FileKind.go | _ => pure Files.FileKind.other
+      let defs ← (← getArr f "defs").toList.mapM fun d => d.getStr?
+      let lits ← (← getArr f "lits").toList.mapM fun l => do
+        let ds ← (← getArr l "defs").toList.mapM fun d => d.getStr?
+        pure ({ value := (← getStr l "value").toList, defs := ds } : Files.Lit String)
+      pure ({ name := (← getStr f "name").toList, kind := kind, defs := defs, lits := lits } : Files.File String)
+    return Json.mkObj [("out", Json.arr ((Files.merged files).map Json.str).toArray)]
+  | _ => throw s!"unknown op {op}"
+
 def dispatch (j : Json) : Json :=
   let r : Except String Json := do
     let op ← getStr j "op"
@@ -257,6 +277,7 @@ def dispatch (j : Json) : Json :=
     else if op.startsWith "main." then opMain op j
     else if op.startsWith "ws." then opWs op j
     else if op.startsWith "doc." then opDoc op j
+    else if op.startsWith "files." then opFiles op j
     else throw s!"unknown op {op}"
   let idf := match j.getObjVal? "id" with | .ok v => [("id", v)] | .error _ => []
   match r with
